@@ -376,7 +376,10 @@ def _vexpr_place(fn, p, depth, seen):
         if not defs:
             return 'undef_%d%s' % (l, suffix)
         return 'phi(%s)%s' % ('|'.join(sorted(_vexpr_def(fn, d, depth - 1, seen | {l}) for d in defs)), suffix)
-    return _vexpr_def(fn, defs[0], depth - 1, seen | {l}) + suffix
+    d0 = defs[0]
+    if d0[0] == 'assign' and d0[3]['k'] == 'bin' and d0[3]['op'] in ('AddWithOverflow', 'SubWithOverflow', 'MulWithOverflow') and suffix.startswith('.0'):
+        suffix = suffix[2:]      # (result, overflowed).0 of a checked operation (debug builds) is the result: same text as the release build's plain operation
+    return _vexpr_def(fn, d0, depth - 1, seen | {l}) + suffix
 
 
 def _vexpr_def(fn, d, depth, seen):
